@@ -315,6 +315,13 @@ func (c C07Case) emit1() c07Obs {
 	} else {
 		slog.RemoveFlags(slog.LattrsR)
 	}
+	// Lattrs is a separate flag nothing in the statement depends on: LattrsR alone selects inheritance.
+	// One case in three runs with Lattrs off (a function of the case, so that a replay repeats it).
+	if (len(c.Msg)+len(c.Chain)+len(c.Args)+len(c.Ctx))%3 == 0 {
+		slog.RemoveFlags(slog.Lattrs)
+	} else {
+		slog.AddFlags(slog.Lattrs)
+	}
 	slog.RemoveFlags(slog.Lcaller)
 	slog.SetLevelOutputWidth(c07TagW)
 	slog.SetMessageMinimalWidth(c07MinW)
